@@ -58,6 +58,8 @@ class FakeStdin:
             raise anyio.ClosedResourceError()
         self.data.extend(b)
         self.log.append(("stdin", bytes(b)))
+        # a pipe write may suspend the writer (slow child): other tasks run before it returns
+        await anyio.sleep(0)
 
     async def aclose(self):
         if not self.closed:
@@ -429,7 +431,7 @@ def run_framing(cases):
 # C06 outbound framing
 
 OUT_TEXTS = ["plain", "line\nbreak", "cr\rlf\r\n", "sep  \u0085", "nul\x00", "quote\"\\", "astral \U0001F600", "é€", ""]
-OUT_SHAPES = ["typedReq", "typedNotif", "typedResp", "typedErr", "dict", "str", "badObject", "badDict", "badSurrogateStr"]
+OUT_SHAPES = ["typedReq", "typedNotif", "typedResp", "typedErr", "dict", "str", "bigTyped", "badObject", "badDict", "badSurrogateStr"]
 OUT_BAD = {"badObject", "badDict", "badSurrogateStr"}
 
 
@@ -439,6 +441,9 @@ def make_item(shape, n, text, rng):
 
     payload = {"marker": n, "t": text, "nested": {"k": [text, None, 1.5, {"x": text}]}, "nil": None}
     shown = {"marker": n, "t": text, "nested": {"k": [text, None, 1.5, {"x": text}]}}
+    if shape == "bigTyped":
+        big = dict(payload, blob="x" * 70000)
+        return JSONRPCRequest(jsonrpc="2.0", id="i%d" % n, method="tools/call", params=big), {"jsonrpc": "2.0", "id": "i%d" % n, "method": "tools/call", "params": big}
     if shape == "typedReq":
         return JSONRPCRequest(jsonrpc="2.0", id="i%d" % n, method="tools/call", params=payload), {"jsonrpc": "2.0", "id": "i%d" % n, "method": "tools/call", "params": payload}
     if shape == "typedNotif":
@@ -515,11 +520,14 @@ def run_out(cases, seed=0):
                                 idx = mk
                                 used.add(mk)
                                 ok = ok and val == expected[mk]
+                            elif isinstance(val, dict) and isinstance(val.get("error"), dict) and val["error"].get("code") == -32600 and "batching" in str(val["error"].get("message", "")).lower():
+                                idx = 0          # the batch rejection written by the reader task
+                                ok = ok and val.get("jsonrpc") == "2.0"
                             else:
                                 ok = False
                         except Exception:
                             ok = False
-                        evs.append({"e": "Line", "idx": idx, "ok": bool(ok)})
+                        evs.append({"e": "Line", "idx": idx, "ok": bool(ok)} if idx != 0 or not ok else {"e": "Rejection", "idx": 0, "ok": True})
                     if proc.stdin.closed and not any(e["e"] == "StdinClosed" for e in evs):
                         evs.append({"e": "StdinClosed"})
 
@@ -542,6 +550,11 @@ def run_out(cases, seed=0):
                     elif st["op"] == "CloseWrite":
                         evs.append({"e": "CloseWrite"})
                         await client._outgoing_send.aclose()
+                    elif st["op"] == "ChildBatch":
+                        # the child sends a batch at a version without batching: the READER task
+                        # answers with an error line written straight to the child's stdin
+                        client.set_protocol_version("2025-06-18")
+                        proc.stdout.feed(b'[{"jsonrpc":"2.0","method":"notifications/message","params":{}}]\n')
                     if st["op"] != "Accept" or st.get("idle", True):
                         await idle()
                         harvest()
